@@ -10,6 +10,7 @@ import clilib
 import tasklib
 
 TRUSTED = [
+    "model Model/SetFlag.v: strings.Split / strings.Join / Variables.Set of the --set loop; urfave/cli's StringSliceFlag hands each --set text over unchanged (observed, not modelled)",
     "model Model/Env.v vars_seen: Config.merge, the --set loop, buildTaskRunner, Run (r.variables.Merge(t.Variables)), runStage; Model/Cli.v: taskArgs and the target loops",
     "text/template with missingkey=error restricted to {{.name}} references; urfave/cli argument handling (a word after the first target is an argument, not a flag)",
     "python driver running the built binary (lib/clilib.py)",
@@ -112,8 +113,39 @@ def undef_jobs(first):
     return jobs
 
 
+SF_NAMES = ["a", "b", "ab"]
+SF_ALPHA = "ab=, x:"
+
+
+def setflag_jobs(ctx, first):
+    """--set texts of every shape: the name is what precedes the first '=', the value the rest (further '=' included, maybe empty);
+    a text without '=' sets nothing; later flags override earlier ones.  The configuration gives every observed name the value cfg."""
+    rng = vlib.rng_for(ctx.seed, "C10setflag")
+    doc = {"variables": {n: "cfg" for n in SF_NAMES},
+           "tasks": {"t": {"command": ['echo "SF|%s|" >> "$PROJ/out"' % "|".join("{{.%s}}" % n for n in SF_NAMES)]}}}
+    corpus = [["a=1=2"], ["a="], ["a"], ["=a"], ["a==b"], ["a=x", "a=b=,"], ["a=x", "a"], ["ab=a=b", "b=ab=", "a=,= "], [""], ["="], ["a=b", "b=a", "ab=a=b=ab"]]
+    sets = list(corpus)
+    for _ in range(160 if ctx.tier == "thorough" else 50):
+        fl = []
+        for _ in range(rng.choice([1, 1, 2, 3])):
+            r = rng.random()
+            val = "".join(rng.choice(SF_ALPHA) for _ in range(rng.randrange(0, 6)))
+            if r < 0.7:
+                fl.append(rng.choice(SF_NAMES + ["c", ""]) + "=" + val)
+            elif r < 0.85:
+                fl.append(rng.choice(SF_NAMES) + val.replace("=", ""))
+            else:
+                fl.append(val)
+        sets.append(fl)
+    jobs = []
+    for fl in sets:
+        argv = ["-c", "cfg.json", "--raw"] + [w for f in fl for w in ("--set", f)] + ["t"]
+        jobs.append({"id": first + len(jobs), "files": {"cfg.json": clilib.jcfg(doc)}, "argv": argv, "keep": ["out"], "kind": "setflag", "flags": fl, "mode": "direct"})
+    return jobs
+
+
 HEADER = """From Coq Require Import List Arith NArith ZArith Bool. Import ListNotations.
-From TaskctlV Require Import Model.Stage Model.Env Corr.EnvCorr Model.Cli Corr.CliCorr Model.TaskRun Corr.TaskRunCorr.
+From TaskctlV Require Import Model.Stage Model.Env Corr.EnvCorr Model.Cli Corr.CliCorr Model.TaskRun Corr.TaskRunCorr Model.SetFlag Corr.SetFlagCorr.
 """
 FOOTER = """
 Definition BAD := Eval vm_compute in map fst (filter (fun c => negb (snd c)) cases).
@@ -137,7 +169,7 @@ def run(ctx):
     res.rule = ("variables: every non-empty subset of {global config, project config, --set, task, stage} defining one name, direct and as stage; "
                 "built-ins printed; argv: target(s), `--`, then every vector of <=2 words and a sample (all in thorough: 9331) of vectors of <=5 words over "
                 "{a, a target name, k=v, -x, --raw, --}, through `taskctl` and `taskctl run`; an undefined variable at every command position of "
-                "<=3-command tasks with/without allow_failure.  distinct = distinct case; non-trivial = >=2 levels / >=1 argument word / any undefined case.")
+                "<=3-command tasks with/without allow_failure; --set texts (1..3 flags over {a b = , space x :}: values containing '=', empty values, texts without '=', empty names, repeated names).  distinct = distinct case; non-trivial = >=2 levels / >=1 argument word / any undefined case.")
     if ctx.replay_cases:
         jobs = ctx.replay_cases
     else:
@@ -146,6 +178,7 @@ def run(ctx):
         jobs += builtin_jobs(len(jobs))
         jobs += argv_jobs(ctx, len(jobs))
         jobs += undef_jobs(len(jobs))
+        jobs += setflag_jobs(ctx, len(jobs))
     out = clilib.run_cli(ctx.workdir, jobs)
     items, index = [], {}
     for j in jobs:
@@ -186,6 +219,18 @@ def run(ctx):
                 parts.append("vars_ok %s 1 %s" % (V, "None" if st not in seen else "(Some %d)" % I(seen[st])))
             items.append("(%d%%N, %s)" % (k, " && ".join(parts)))
             res.nontrivial_keys.add(json.dumps([v, j["mode"], "shared"], sort_keys=True))
+        elif j["kind"] == "setflag":
+            def bl(t):
+                return vlib.clist(list(t.encode()), str)
+            m = re.match(r"^SF\|(.*)\|$", lines[0]) if len(lines) == 1 else None
+            vals = m.group(1).split("|") if m else []
+            if r["rc"] != 0 or len(vals) != len(SF_NAMES):
+                obs = "[(%s, %s)]" % (bl("a"), bl("<the task did not run>"))
+            else:
+                obs = vlib.clist(list(zip(SF_NAMES, vals)), lambda nv: "(%s, %s)" % (bl(nv[0]), bl(nv[1])))
+            items.append("(%d%%N, setflag_ok %s %s %s)" % (k, vlib.clist(j["flags"], bl), bl("cfg"), obs))
+            if any("=" in f.split("=", 1)[1] for f in j["flags"] if "=" in f) or len(j["flags"]) > 1:
+                res.nontrivial_keys.add(json.dumps(j["flags"]))
         elif j["kind"] == "builtins":
             d = dict(l.split("=", 1) for l in lines)
             ok = r["rc"] == 0 and set(d) == {"R", "T", "A", "L"} and d["R"].endswith("/proj") and d["T"] != "" and d["A"] == "" and d["L"] == "[]"
@@ -222,6 +267,7 @@ def run(ctx):
         res.traces_validated += cnt
     whats = {"shared": "stages sharing a task: a stage-level variable of one stage was seen by another stage or by a direct run of the task (or the defining stage did not see it)",
              "vars": "a template variable did not resolve to the value of the highest level defining it (stage > task > --set > project config > global config)",
+             "setflag": "--set name=value: a command did not see, for each name, the text after the first '=' of the last --set naming it (or the configuration's value when no flag names it)",
              "builtins": "a built-in variable (Root, TempDir, Args, ArgsList) was undefined or wrong",
              "argv": "the words after the first `--` did not reach the tasks verbatim as $ARGS/.Args/.ArgsList, or a word after `--` was treated as a target",
              "undef": "a command referring to an undefined variable: the commands that ran / the task result are not 'everything before it, then failure'"}
